@@ -232,6 +232,15 @@ func c20Setup(init []c20AccJ) *c20World {
 	tApp.InitializeFromGenesisStatesWithTime(GenesisTime)
 	ctx := NewCtx(tApp, 2, time.Unix(c20T0, 0).UTC())
 	w := &c20World{tApp: tApp, ctx: ctx, ik: tApp.GetIncentiveKeeper(), bk: tApp.GetBankKeeper(), ak: tApp.GetAccountKeeper()}
+	// incentive params: claim multipliers for the USDX-minting reward denom, every factor 1
+	ms := inctypes.Multipliers{}
+	for _, mo := range []int64{0, 1, 2, 3, 6, 12, 24} {
+		ms = append(ms, inctypes.NewMultiplier(c20Mult[mo], mo, sdk.OneDec()))
+	}
+	params := inctypes.DefaultParams()
+	params.ClaimMultipliers = inctypes.MultipliersPerDenoms{{Denom: "ukava", Multipliers: ms}}
+	params.ClaimEnd = time.Date(2300, 1, 1, 0, 0, 0, 0, time.UTC)
+	w.ik.SetParams(ctx, params)
 	users := Addrs(c20NAcc)
 	w.addrs = make([]sdk.AccAddress, c20NAcc)
 	for i := 0; i < c20NAcc; i++ {
@@ -322,14 +331,22 @@ type c20Probe struct {
 	T      int64
 	Locked []*big.Int
 	Spend  []*big.Int
+	Panic  string // the bank query panicked (an account whose vested coins exceed its original vesting)
 }
 
 // probe evaluates the bank's LockedCoins / SpendableCoins of account i with contexts at the given block times.
 func (w *c20World) probe(i int, times []int64) []c20Probe {
 	out := make([]c20Probe, len(times))
 	for k, t := range times {
-		ctx := w.ctx.WithBlockTime(time.Unix(t, 0).UTC())
-		out[k] = c20Probe{t, coinsVec(w.bk.LockedCoins(ctx, w.addrs[i])), coinsVec(w.bk.SpendableCoins(ctx, w.addrs[i]))}
+		func() {
+			defer func() {
+				if r := recover(); r != nil {
+					out[k] = c20Probe{T: t, Locked: zeroVec(), Spend: zeroVec(), Panic: fmt.Sprint(r)}
+				}
+			}()
+			ctx := w.ctx.WithBlockTime(time.Unix(t, 0).UTC())
+			out[k] = c20Probe{T: t, Locked: coinsVec(w.bk.LockedCoins(ctx, w.addrs[i])), Spend: coinsVec(w.bk.SpendableCoins(ctx, w.addrs[i]))}
+		}()
 	}
 	return out
 }
@@ -373,6 +390,12 @@ func (w *c20World) exec(op c20Op) (cls Class, err error, plen int64) {
 			// what every Claim*Reward of claim.go does after computing the reward coins
 			plen = w.ik.GetPeriodLength(c.BlockTime(), op.Len)
 			return w.ik.SendTimeLockedCoinsToAccount(c, inctypes.IncentiveMacc, w.addrs[op.R], coins, plen)
+		case "usdxclaim":
+			// the real claim path: a stored USDX-minting claim of the recipient, claimed by its owner through
+			// Keeper.ClaimUSDXMintingReward with a multiplier of factor 1 and op.Len months of lock-up
+			plen = w.ik.GetPeriodLength(c.BlockTime(), op.Len)
+			w.ik.SetUSDXMintingClaim(c, inctypes.NewUSDXMintingClaim(w.addrs[op.R], sdk.NewCoin("ukava", coins.AmountOf("ukava")), nil))
+			return w.ik.ClaimUSDXMintingReward(c, w.addrs[op.R], w.addrs[op.R], c20Mult[op.Len])
 		case "spend":
 			return w.bk.SendCoins(c, w.addrs[op.R], w.addrs[c20Sink], coins)
 		case "plen":
@@ -383,6 +406,11 @@ func (w *c20World) exec(op c20Op) (cls Class, err error, plen int64) {
 	})
 	return
 }
+
+func isClaim(op c20Op) bool { return op.Kind == "claim" || op.Kind == "usdxclaim" }
+
+// multiplier names of the incentive params set up by c20Setup, by months of lock-up (all with factor 1)
+var c20Mult = map[int64]string{0: "m0", 1: "m1", 2: "m2", 3: "m3", 6: "m6", 12: "m12", 24: "m24"}
 
 func c20ErrKind(err error) string {
 	if err == nil {
@@ -654,7 +682,11 @@ func c20GenLen(r *Rng, a *c20Acc, now int64, mode int) int64 {
 		}
 	}
 	remaining := a.End - now
-	switch r.Pick(26, 14, 22, 10, 14, 6, 8) {
+	ws := []int{26, 14, 22, 10, 14, 6, 8}
+	if a.Start > now { // not started yet: the rarest branches of the merge; aim at the boundaries
+		ws = []int{40, 8, 22, 16, 10, 2, 2}
+	}
+	switch r.Pick(ws...) {
 	case 0: // exactly on an existing boundary
 		if len(future) > 0 {
 			return future[r.Intn(len(future))] - now
@@ -831,6 +863,17 @@ func (g *c20Gen) op(s []c20Acc) c20Op {
 		op.Len = []int64{1, 1, 1, 1, 12, 12, 0, 2, 3, 6, 24, 1}[r.Intn(12)]
 		if r.Chance(1, 30) {
 			op.Len = -1
+		} else if r.Chance(2, 5) {
+			// through the real claim message path (pays one ukava coin)
+			op.Kind = "usdxclaim"
+			x := big.NewInt(int64(1 + r.Intn(40)))
+			if r.Chance(1, 6) {
+				x.Add(s[c20Macc].Bal[1], big.NewInt(int64(r.Intn(3)-1)))
+			}
+			if x.Sign() <= 0 || r.Chance(1, 25) {
+				x.SetInt64(0) // an empty claim: ErrZeroClaim
+			}
+			op.Coins = []c20Coin{{1, x.String()}}
 		}
 	case 2:
 		op.Kind = "spend"
@@ -934,7 +977,7 @@ type c20Check struct {
 func c20Monitor(w *c20World, op c20Op, cls Class, length int64, pre, post []c20Acc, pp, qp []c20Probe, mode int) *c20Check {
 	coins := opCoins(op.Coins)
 	moved := coinsVec(coins)
-	if op.Kind == "plen" || (op.Kind == "claim" && cls != ClassPanic) {
+	if op.Kind == "plen" || (isClaim(op) && cls != ClassPanic) {
 		// payday rule: the lock-up ends at 14:00 UTC on the 15th (claims before the 15th 14:00) or the 1st of a month,
 		// the requested number of months ahead
 		if op.Len > 0 {
@@ -995,6 +1038,11 @@ func c20Monitor(w *c20World, op c20Op, cls Class, length int64, pre, post []c20A
 		return nil
 	}
 	// ---- successful operation
+	for k := range qp {
+		if qp[k].Panic != "" && (k >= len(pp) || pp[k].Panic == "") {
+			return &c20Check{"bank-queries-do-not-panic", "locked-coins-query-panics", fmt.Sprintf("LockedCoins of account %d at t=%d panics after the operation: %s", op.R, qp[k].T, qp[k].Panic), false}
+		}
+	}
 	if !coins.IsValid() {
 		return &c20Check{"invalid-coins-refused", "invalid-coins-accepted", coins.String(), false}
 	}
@@ -1265,7 +1313,7 @@ func coqOp(op c20Op) string {
 	switch op.Kind {
 	case "send":
 		return fmt.Sprintf("SendLocked %s %s %s %s", Zi(op.Now), Nat(op.R), coqCoins(op.Coins), Zi(op.Len))
-	case "claim":
+	case "claim", "usdxclaim":
 		return fmt.Sprintf("Claim %s %s %s %s", Zi(op.Now), Nat(op.R), coqCoins(op.Coins), Zi(op.Len))
 	case "spend":
 		return fmt.Sprintf("Spend %s %s %s", Zi(op.Now), Nat(op.R), coqCoins(op.Coins))
@@ -1280,6 +1328,9 @@ func coqOp(op c20Op) string {
 func coqProbes(r int, qp []c20Probe, now, unlock int64, limit int) string {
 	var it []string
 	pick := func(p c20Probe) {
+		if p.Panic != "" {
+			return
+		}
 		it = append(it, fmt.Sprintf("mkProbe %s %s %s %s", Nat(r), Zi(p.T), coqVec(p.Locked), coqVec(p.Spend)))
 	}
 	important := map[int64]bool{now: true, unlock - 1: true, unlock: true}
@@ -1368,7 +1419,7 @@ func c20Run(seed uint64, idx, n, mode int, init []c20AccJ, ops []c20Op, cnt *Cou
 		}
 		// lock-up length the operation will use (for choosing probe times; recomputed from the implementation below)
 		guess := op.Len
-		if op.Kind == "claim" || op.Kind == "plen" {
+		if isClaim(op) || op.Kind == "plen" {
 			guess = 0
 			if op.Len >= 0 {
 				guess = w.ik.GetPeriodLength(time.Unix(op.Now, 0).UTC(), op.Len)
@@ -1390,7 +1441,7 @@ func c20Run(seed uint64, idx, n, mode int, init []c20AccJ, ops []c20Op, cnt *Cou
 			qp = w.probe(op.R, times)
 		}
 		length := op.Len
-		if op.Kind == "claim" || op.Kind == "plen" {
+		if isClaim(op) || op.Kind == "plen" {
 			length = plen
 		}
 		out.hist.Ops = append(out.hist.Ops, op)
@@ -1410,7 +1461,7 @@ func c20Run(seed uint64, idx, n, mode int, init []c20AccJ, ops []c20Op, cnt *Cou
 			}
 		case op.Kind == "plen":
 		default:
-			if op.Kind == "claim" {
+			if isClaim(op) {
 				tm := time.Unix(op.Now, 0).UTC()
 				switch {
 				case op.Len < 0:
@@ -1472,6 +1523,142 @@ func c20Run(seed uint64, idx, n, mode int, init []c20AccJ, ops []c20Op, cnt *Cou
 	}
 	out.coq = fmt.Sprintf("mkHist %s %s\n  %s\n  %s", w.coqEnv(), Bool(mode != mMalformed), List(initS), List(steps))
 	return out
+}
+
+// oneStep executes one operation on the world (whose context may be a throw-away
+// cache context) and returns the Coq step, the monitor verdict and the split.
+func (w *c20World) oneStep(op c20Op, prev []c20Acc, mode int, probeLimit int) (coq string, chk *c20Check, split string, cls Class) {
+	times := probeTimes(&prev[op.R], op.Now, op.Now+op.Len)
+	pp := w.probe(op.R, times)
+	cls, _, plen := w.exec(op)
+	after := w.snap()
+	qp := w.probe(op.R, times)
+	var deltas []string
+	for a := range after {
+		if !accEq(&prev[a], &after[a]) {
+			deltas = append(deltas, fmt.Sprintf("(%s, %s)", Nat(a), coqSnap(&after[a])))
+		}
+	}
+	probes := coqProbes(op.R, qp, op.Now, op.Now+op.Len, probeLimit)
+	coq = fmt.Sprintf("(%s,\n    mkObs %s %s %s %s)", coqOp(op), cls.Coq(), List(deltas), probes, Zi(plen))
+	chk = c20Monitor(w, op, cls, op.Len, prev, after, pp, qp, mode)
+	if cls == ClassOk {
+		split = c20Split(&prev[op.R], op.Now, op.Len)
+	}
+	return
+}
+
+// layouts enumerates all period layouts with at most maxP periods of lengths 1..maxL.
+func layouts(maxP, maxL int) [][]int64 {
+	var out [][]int64
+	var rec func(cur []int64)
+	rec = func(cur []int64) {
+		if len(cur) > 0 {
+			out = append(out, append([]int64(nil), cur...))
+		}
+		if len(cur) == maxP {
+			return
+		}
+		for l := 1; l <= maxL; l++ {
+			rec(append(cur, int64(l)))
+		}
+	}
+	rec(nil)
+	return out
+}
+
+// exhaustiveSmall: every layout with <= 3 periods of lengths <= 4, every block time
+// from 2 s before the start to 2 s after the end, every lock-up length from 1 s to
+// 2 s beyond the remaining schedule: one lock-up payout each, on the real keeper
+// (a throw-away cache context per case), all boundaries probed.
+func exhaustiveSmall(o Opts, res *Result, cnt *Counters, shard *int) error {
+	ls := layouts(3, 4)
+	type ex struct {
+		coq   []string
+		refs  []c20Hist
+		fails []Failure
+	}
+	outs := make([]ex, len(ls))
+	start := c20T0 + 100
+	ParallelFor(len(ls), o.Workers, func(li int) {
+		lay := ls[li]
+		init := c20GenInit(NewRng(o.Seed, uint64(1<<42+li)), mSmall, c20T0, nil)
+		a := c20AccJ{Kind: kPeriodic, Start: start, DV: []string{"0", "0", "0"}}
+		ov := zeroVec()
+		total := int64(0)
+		for i, l := range lay {
+			am := zeroVec()
+			am[i%2] = big.NewInt(int64(10 * (i + 1)))
+			am[2] = big.NewInt(int64(i + 1))
+			a.Periods = append(a.Periods, c20PerJ{l, vecJ(am)})
+			ov = vecAdd(ov, am)
+			total += l
+		}
+		a.End = start + total
+		a.OV = vecJ(ov)
+		a.Bal = vecJ(vecAdd(ov, []*big.Int{big.NewInt(5), big.NewInt(0), big.NewInt(7)}))
+		init[1] = a
+		init[c20Macc] = c20AccJ{Kind: kModule, Bal: []string{"1000", "1000", "1000"}}
+		w := c20Setup(init)
+		base := w.ctx
+		prev := w.snap()
+		initS := make([]string, c20NAcc)
+		for i := range prev {
+			initS[i] = coqSnap(&prev[i])
+		}
+		env := w.coqEnv()
+		for now := start - 2; now <= start+total+2; now++ {
+			rem := start + total - now
+			if rem < 0 {
+				rem = 0
+			}
+			for l := int64(1); l <= rem+2; l++ {
+				op := c20Op{Kind: "send", Now: now, R: 1, Coins: []c20Coin{{0, "3"}, {2, "4"}}, Len: l}
+				cctx, _ := base.CacheContext()
+				w.ctx = cctx
+				coq, chk, split, _ := w.oneStep(op, prev, mSmall, 60)
+				cnt.Inc("exhaustive:" + split)
+				h := c20Hist{o.Seed, -1, mSmall, init, []c20Op{op}}
+				outs[li].coq = append(outs[li].coq, fmt.Sprintf("mkHist %s true\n  %s\n  %s", env, List(initS), List([]string{coq})))
+				outs[li].refs = append(outs[li].refs, h)
+				if chk != nil && !chk.reported {
+					outs[li].fails = append(outs[li].fails, Failure{History: -1, Step: 0, Predicate: chk.pred, Signature: chk.sig, Detail: chk.detail, Replay: MustJSON(h)})
+				}
+			}
+		}
+		w.ctx = base
+	})
+	var cases []string
+	flush := func() error {
+		if len(cases) == 0 {
+			return nil
+		}
+		name, err := WriteShard(o.OutDir, *shard, c20Header, cases, "mismatches")
+		if err != nil {
+			return err
+		}
+		res.Shards = append(res.Shards, name)
+		*shard++
+		cases = nil
+		return nil
+	}
+	n := 0
+	for _, e := range outs {
+		for k := range e.coq {
+			res.HistIndex = append(res.HistIndex, HistRef{*shard, len(cases), -1, MustJSON(e.refs[k])})
+			cases = append(cases, e.coq[k])
+			n++
+			if len(cases) == 250 {
+				if err := flush(); err != nil {
+					return err
+				}
+			}
+		}
+		res.Failures = append(res.Failures, e.fails...)
+	}
+	res.Evaluations += n
+	cnt.Add("exhaustive-small-layout-cases", n)
+	return flush()
 }
 
 func c20Mode(idx int) int {
@@ -1558,10 +1745,14 @@ func runC20(o Opts) (*Result, error) {
 	}
 
 	outs := make([]c20Out, o.N)
+	shrunk := NewCounters() // failures shrunk so far, per signature (a broken tree fails hundreds of histories)
 	ParallelFor(o.N, o.Workers, func(i int) {
 		mode := c20Mode(i)
 		ot := c20Run(o.Seed, i, n, mode, nil, nil, cnt)
-		if ot.fail != nil {
+		if ot.fail != nil && shrunk.Map()[ot.fail.Signature] >= 3 {
+			ot.fail.Replay = MustJSON(c20Hist{o.Seed, i, mode, ot.hist.Init, ot.hist.Ops[:ot.fail.Step+1]})
+		} else if ot.fail != nil {
+			shrunk.Inc(ot.fail.Signature)
 			sig := ot.fail.Signature
 			init := ot.hist.Init
 			fails := func(cand []c20Op) bool {
@@ -1634,6 +1825,24 @@ func runC20(o Opts) (*Result, error) {
 	}
 	if err := flush(); err != nil {
 		return nil, err
+	}
+	// the check reports the first failure of each signature: put the smallest (shrunk) replay first
+	firstOf, bestOf := map[string]int{}, map[string]int{}
+	for i, f := range res.Failures {
+		if _, ok := firstOf[f.Signature]; !ok {
+			firstOf[f.Signature], bestOf[f.Signature] = i, i
+		} else if len(f.Replay) < len(res.Failures[bestOf[f.Signature]].Replay) {
+			bestOf[f.Signature] = i
+		}
+	}
+	for sig, i := range firstOf {
+		j := bestOf[sig]
+		res.Failures[i], res.Failures[j] = res.Failures[j], res.Failures[i]
+	}
+	if o.Tier == "thorough" {
+		if err := exhaustiveSmall(o, res, cnt, &shard); err != nil {
+			return nil, err
+		}
 	}
 	// GetPeriodLength sweep (its own case file; positions are not histories)
 	sweepN := 1500
